@@ -89,7 +89,7 @@ func refCombinations(n, k int) [][]int {
 			out = append(out, append([]int{}, cur...))
 			return
 		}
-		for v := start; v < n; v++ {
+		for v := start; v <= n-(k-len(cur)); v++ { // leave room for the remaining k-len(cur)-1 elements
 			cur = append(cur, v)
 			rec(v + 1)
 			cur = cur[:len(cur)-1]
@@ -113,8 +113,15 @@ func colexLess(a, b []int) bool {
 func refMultisetComb(m []int, k int) [][]int { // frequency vectors
 	var out [][]int
 	cur := make([]int, len(m))
+	suffix := make([]int, len(m)+1) // capacity of the types i..
+	for i := len(m) - 1; i >= 0; i-- {
+		suffix[i] = suffix[i+1] + m[i]
+	}
 	var rec func(i, left int)
 	rec = func(i, left int) {
+		if left > suffix[i] {
+			return
+		}
 		if i == len(m) {
 			if left == 0 {
 				out = append(out, append([]int{}, cur...))
@@ -379,6 +386,22 @@ func evalIt(ic itCase) *Failure {
 		got, cl, what = drive(it.Next, func() string { return is(it.Value()) }, limitOf(len(want)))
 	case "RestrictedPrefixPermutations":
 		n := P[0]
+		if ic.PredF == "nearly-identity" {
+			// prefixes accepted iff a[i] == i, except that the last two positions are free: 2 permutations
+			id := make([]int, n)
+			for i := range id {
+				id[i] = i
+			}
+			sw := append([]int{}, id...)
+			sw[n-2], sw[n-1] = n-1, n-2
+			want = []string{is(id), is(sw)}
+			it := itertools.RestrictedPrefixPermutations(n, func(a []int) bool {
+				k := len(a) - 1
+				return k >= n-2 || a[k] == k
+			})
+			got, cl, what = drive(it.Next, func() string { return is(it.Value()) }, limitOf(len(want)))
+			break
+		}
 		nodes := injectiveNodes(n)
 		idx := map[string]int{}
 		for i, nd := range nodes {
@@ -406,6 +429,28 @@ func evalIt(ic itCase) *Failure {
 		got, cl, what = drive(it.Next, func() string { return is(it.Value()) }, limitOf(len(want)))
 	case "PermutationsByPattern":
 		n := P[0]
+		if ic.PredF == "nearly-increasing" {
+			// standardised prefixes accepted iff increasing, except that the full-length step may also put the new last
+			// element just below the previous one: identity and identity with the last two swapped
+			id := make([]int, n)
+			for i := range id {
+				id[i] = i
+			}
+			sw := append([]int{}, id...)
+			sw[n-2], sw[n-1] = n-1, n-2
+			want = []string{is(id), is(sw)}
+			ordered = false
+			it := itertools.PermutationsByPattern(n, func(a []int) bool {
+				for i := 0; i+1 < len(a); i++ {
+					if a[i] > a[i+1] && !(len(a) == n && i == n-2 && a[i] == a[i+1]+1) {
+						return false
+					}
+				}
+				return true
+			})
+			got, cl, what = drive(it.Next, func() string { return is(it.Value()) }, limitOf(len(want)))
+			break
+		}
 		var nodes [][]int
 		for l := 1; l <= n; l++ {
 			nodes = append(nodes, allPerms(l)...)
@@ -439,7 +484,50 @@ func evalIt(ic itCase) *Failure {
 		n := P[0]
 		rel := func(i, j int) bool { return i < j && ic.Pred>>uint(j*(j-1)/2+i)&1 == 1 }
 		ordered = false
-		for _, t := range allPerms(n) {
+		large := ic.PredF != ""
+		switch ic.PredF {
+		case "total-order":
+			rel = func(i, j int) bool { return i < j }
+		case "total-order-minus-last":
+			rel = func(i, j int) bool { return i < j && !(i == n-2 && j == n-1) }
+		case "chain-plus-free-top":
+			rel = func(i, j int) bool { return i < j && j < n-1 } // n-1 is unconstrained: n sorts
+		}
+		if large {
+			// enumerate the linear extensions directly: insert the free elements into the forced chain
+			id := make([]int, n)
+			for i := range id {
+				id[i] = i
+			}
+			switch ic.PredF {
+			case "total-order":
+				want = []string{is(id)}
+			case "total-order-minus-last":
+				sw := append([]int{}, id...)
+				sw[n-2], sw[n-1] = n-1, n-2
+				want = []string{is(id), is(sw)}
+			case "chain-plus-free-top":
+				for pos := 0; pos < n; pos++ {
+					var t []int
+					for v := 0; v < n-1; v++ {
+						if len(t) == pos {
+							t = append(t, n-1)
+						}
+						t = append(t, v)
+					}
+					if len(t) == n-1 {
+						t = append(t, n-1)
+					}
+					want = append(want, is(t))
+				}
+			}
+		}
+		for _, t := range func() [][]int {
+			if large {
+				return nil
+			}
+			return allPerms(n)
+		}() {
 			pos := make([]int, n)
 			for p, v := range t {
 				pos[v] = p
@@ -646,6 +734,38 @@ func makePermPredicate(ic itCase, idx map[string]int) func([]int) bool {
 	panic("unknown predicate family " + ic.PredF)
 }
 
+// libOnlyDrive drives the parameter-only iterators without any reference computation (used to attribute a timeout).
+func libOnlyDrive(ic itCase) {
+	P := ic.P
+	try(func() {
+		lim := 50000000
+		switch ic.It {
+		case "Combinations":
+			it := itertools.Combinations(P[0], P[1])
+			for i := 0; it.Next() && i < lim; i++ {
+			}
+		case "CombinationsColex":
+			it := itertools.CombinationsColex(P[0], P[1])
+			for i := 0; it.Next() && i < lim; i++ {
+			}
+		case "MultisetCombinations":
+			it := itertools.MultisetCombinations(append([]int{}, P[:len(P)-1]...), P[len(P)-1])
+			for i := 0; it.Next() && i < lim; i++ {
+			}
+		case "MultisetPermutations":
+			it := itertools.MultisetPermutations(append([]int{}, P...))
+			for i := 0; it.Next() && i < lim; i++ {
+			}
+		case "Product":
+			it := itertools.Product(append([]int{}, P...)...)
+			for i := 0; it.Next() && i < lim; i++ {
+			}
+		default:
+			select {} // predicate-driven and small families: no separate attribution, treat as the library's
+		}
+	})
+}
+
 func runC15(c *Ctx) {
 	c.Level = "exploration"
 	c.Rule = "every parameter tuple in a box containing every special-cased boundary (n=0,1; k=0,n,n+1,n+2; zero/repeated multiplicities; empty and zero factors), each iterator driven as a state machine (Next until false, then 3 more calls) and compared with a naive recursive enumeration (sequence where an order is documented, set otherwise); predicate-driven iterators over every predicate (subset of the prefix tree / relation) in small scope plus structured families; non-trivial = family with at least 2 members"
@@ -800,6 +920,34 @@ func runC15(c *Ctx) {
 		}
 		cases = f
 	}
+	// parameters beyond one machine word / above 64, where the family is still small enough to enumerate
+	for _, n := range []int{63, 64, 65, 66, 70, 130} {
+		add(itCase{It: "Combinations", P: []int{n, 1}})
+		add(itCase{It: "Combinations", P: []int{n, n - 1}})
+		add(itCase{It: "Combinations", P: []int{n, n}})
+		add(itCase{It: "CombinationsColex", P: []int{n, 1}})
+		add(itCase{It: "CombinationsColex", P: []int{n, n - 1}})
+		if n <= 70 {
+			add(itCase{It: "Combinations", P: []int{n, 2}})
+			add(itCase{It: "CombinationsColex", P: []int{n, 2}})
+		}
+		// multisets / products over n types
+		ones := repeatInt(1, n)
+		add(itCase{It: "MultisetCombinations", P: append(append([]int{}, ones...), 1)})
+		add(itCase{It: "MultisetCombinations", P: append(append([]int{}, ones...), n-1)})
+		p1 := repeatInt(1, n)
+		p1[n-1], p1[0], p1[n/2] = 2, 2, 3
+		add(itCase{It: "Product", P: p1})
+		f := repeatInt(0, n)
+		f[n-1], f[n-2] = 2, 1
+		add(itCase{It: "MultisetPermutations", P: f})
+		// topological sorts of n elements under (almost) a total order, predicate families by name
+		add(itCase{It: "TopologicalSorts", P: []int{n}, PredF: "total-order"})
+		add(itCase{It: "TopologicalSorts", P: []int{n}, PredF: "total-order-minus-last"})
+		add(itCase{It: "TopologicalSorts", P: []int{n}, PredF: "chain-plus-free-top"})
+		add(itCase{It: "RestrictedPrefixPermutations", P: []int{n}, PredF: "nearly-identity"})
+		add(itCase{It: "PermutationsByPattern", P: []int{n}, PredF: "nearly-increasing"})
+	}
 	perIt := map[string]int64{}
 	for _, ic := range cases {
 		perIt[ic.It]++
@@ -811,7 +959,16 @@ func runC15(c *Ctx) {
 		for _, ic := range cases[lo:hi] {
 			ic := ic
 			c.CheckTimed(15*time.Second, func() *Failure { return evalIt(ic) }, func() *Failure {
-				return &Failure{Class: "itertools/" + ic.It + "/does-not-terminate" + paramClass(ic), What: fmt.Sprintf("%s(%v pred=%s%#x): a call of Next did not return within 15s", ic.It, ic.P, ic.PredF, ic.Pred), Kind: "it", Replay: ic}
+				// the evaluation includes the reference enumeration: blame the library only if driving it alone hangs too
+				done := make(chan struct{})
+				go func() { libOnlyDrive(ic); close(done) }()
+				select {
+				case <-done:
+					c.HarnessError("reference enumeration too slow for %s(%v) (the iterator itself terminates)", ic.It, ic.P)
+					return nil
+				case <-time.After(15 * time.Second):
+				}
+				return &Failure{Class: "itertools/" + ic.It + "/does-not-terminate" + paramClass(ic), What: fmt.Sprintf("%s(%v pred=%s%#x): driving the iterator alone did not finish within 15s", ic.It, ic.P, ic.PredF, ic.Pred), Kind: "it", Replay: ic}
 			})
 		}
 	})
